@@ -102,7 +102,7 @@ fn parse_replay_stdout(out: &std::process::Output) -> Result<Fresh, String> {
 
 /// Execute one history alone in a fresh process.
 fn fresh_exec<W: World>(ops: &[W::Op], tmp: &Path) -> Result<Fresh, String> {
-    let file = J::obj().with("format", J::str("ckc-sim replay v1")).with("mode", J::str("history")).with("property_id", J::str(W::id())).with("ops", ops_json::<W>(ops));
+    let file = J::obj().with("format", J::str("ckc-sim replay v1")).with("mode", J::str("history")).with("property_id", J::str(W::id())).with("log_on", J::Bool(crate::sim::log_on())).with("ops", ops_json::<W>(ops));
     std::fs::write(tmp, file.compact()).map_err(|e| format!("{}: {}", tmp.display(), e))?;
     let exe = std::env::current_exe().map_err(|e| e.to_string())?;
     let out = crate::sim::child_command(&exe).arg("replay").arg(tmp).arg("--machine").output().map_err(|e| format!("cannot spawn replay: {}", e))?;
@@ -113,25 +113,10 @@ fn fresh_exec<W: World>(ops: &[W::Op], tmp: &Path) -> Result<Fresh, String> {
 /// directed scenarios `from..=to`; report what the last one did.
 fn fresh_context<W: World>(kind: &str, seed: u64, lanes: u64, from: u64, to: u64) -> Result<Fresh, String> {
     let exe = std::env::current_exe().map_err(|e| e.to_string())?;
-    let out = crate::sim::child_command(&exe)
-        .arg("context-replay")
-        .arg("--prop")
-        .arg(W::id())
-        .arg("--kind")
-        .arg(kind)
-        .arg("--seed")
-        .arg(seed.to_string())
-        .arg("--lanes")
-        .arg(lanes.to_string())
-        .arg("--from")
-        .arg(from.to_string())
-        .arg("--to")
-        .arg(to.to_string())
-        .arg("--depth")
-        .arg(crate::sim::depth().to_string())
-        .arg("--machine")
-        .output()
-        .map_err(|e| format!("cannot spawn context-replay: {}", e))?;
+    let mut cmd = crate::sim::child_command(&exe);
+    cmd.arg("context-replay").arg("--prop").arg(W::id()).arg("--kind").arg(kind).arg("--seed").arg(seed.to_string()).arg("--lanes").arg(lanes.to_string()).arg("--from").arg(from.to_string()).arg("--to").arg(to.to_string()).arg("--machine");
+    crate::sim::config_args(&mut cmd);
+    let out = cmd.output().map_err(|e| format!("cannot spawn context-replay: {}", e))?;
     parse_replay_stdout(&out)
 }
 
@@ -270,6 +255,7 @@ pub fn run_property<W: World>(cfg: &RunCfg) -> Report {
             .with("run_index", case.run.map(J::u).unwrap_or(J::Null))
             .with("origin", J::str(&case.origin))
             .with("profile", J::str(&cfg.profile))
+            .with("log_on", J::Bool(crate::sim::log_on()))
             .with("original_history_len", J::u(original_len as u64))
             .with("schedule_and_faults", J::str("single owner, calls in listed order; no fault kinds exist for this crate (DESIGN 1), so the fault trace is empty"));
         let (v_class, v_step, v_digest, v_detail, min_len);
